@@ -282,6 +282,7 @@ func shrink(c *Case) *Case {
 
 func hunt(o Opts) {
 	res := map[string]interface{}{"found": false}
+	var handed2 []*Case2
 	report := func(c *Case, msg string) {
 		s := shrink(c)
 		execute(s)
@@ -294,8 +295,9 @@ func hunt(o Opts) {
 	// 1. the witness of the known hook-lag finding, and cases handed over by the correspondence stage
 	if o.Replay != "" {
 		var in struct {
-			Cases []*Case `json:"cases"`
-			Lag   *Case   `json:"lag_witness"`
+			Cases  []*Case  `json:"cases"`
+			Cases2 []*Case2 `json:"cases2"`
+			Lag    *Case    `json:"lag_witness"`
 		}
 		if b, err := os.ReadFile(o.Replay); err == nil {
 			json.Unmarshal(b, &in)
@@ -311,6 +313,10 @@ func hunt(o Opts) {
 				report(c, m)
 			}
 		}
+		handed2 = in.Cases2
+	}
+	if res["found"] == false {
+		huntHMM(o, handed2, res)
 	}
 	// 2. tiny data sets over a grid, per family
 	if res["found"] == false {
